@@ -214,6 +214,9 @@ func (u *universe) bodyTerm(b []byte) string {
 		return "DPanic"
 	case err != nil:
 		return "DErr"
+	case h.VPanic:
+		// the body decodes; Validate() on the decoded header panics (vhdr wire flag 2)
+		return "DValPanic"
 	default:
 		return "(DHdr " + u.term(h) + ")"
 	}
@@ -651,7 +654,10 @@ func newWorld() *world {
 		"empty", "reset", "truncvarint", "truncframe", "lenonly", "zeroframe", "ok_emptybody",
 		"oversize", "pbgarbage", "garbagebody", "random", "hang", "nohandler", "unknownpeer",
 		"panicbody", "panic_notfound", "T_then_panic", "panic_then_T",
+		"valpanic", "valpanic_notfound", "T_then_valpanic", "valpanic_then_T",
 	}
+	// P: the requested header, except that its Validate() panics
+	vp := &vhdr.Header{Chain: "chainA", H: 7, T: 1000, Prev: prev, Nonce: 1, VPanic: true}
 	w.mk = func(kind string, rng *emit.Rand) answer {
 		a := answer{kind: kind}
 		rnd := func(n int) []byte {
@@ -733,6 +739,15 @@ func newWorld() *world {
 		case "panicbody":
 			// vhdr's UnmarshalBinary panics on this body (scripted decode panic)
 			a.bytes = frame(ok, append([]byte{vhdr.PanicByte}, rnd(rng.Intn(8))...))
+		case "valpanic":
+			// the body decodes, Validate() on the decoded header panics (scripted)
+			a.bytes = frame(ok, enc(vp))
+		case "valpanic_notfound":
+			a.bytes = frame(nf, enc(vp))
+		case "T_then_valpanic":
+			a.bytes = append(frame(ok, enc(w.T)), frame(ok, enc(vp))...)
+		case "valpanic_then_T":
+			a.bytes = append(frame(ok, enc(vp)), frame(ok, enc(w.T))...)
 		case "panic_notfound":
 			// the status is checked before the body is decoded: no panic, NOT_FOUND
 			a.bytes = frame(nf, []byte{vhdr.PanicByte})
@@ -849,14 +864,17 @@ func perms(n int) [][]int {
 // child process and reports whether the client process survives it. A panic on
 // a goroutine of performRequest cannot be recovered by the caller, so this is
 // the only way to observe it without losing the whole run.
-func probeCodecPanic(t *testing.T) (survives bool) {
+func probeCodecPanic(t *testing.T) (survives bool) { return probePanicChild(t, "1") }
+
+// probePanicChild: "1" = a body on which UnmarshalBinary panics, "val" = a body on whose header Validate panics
+func probePanicChild(t *testing.T, which string) (survives bool) {
 	cmd := exec.Command(os.Args[0], "-test.run=^TestC13CodecPanicGap$", "-test.timeout=120s")
-	cmd.Env = append(os.Environ(), "VERIF_C13_PANIC_CHILD=1")
+	cmd.Env = append(os.Environ(), "VERIF_C13_PANIC_CHILD="+which)
 	out, err := cmd.CombinedOutput()
 	switch {
 	case strings.Contains(string(out), "C13-CHILD-SURVIVED"):
 		return true
-	case err != nil && strings.Contains(string(out), "scripted decode panic"):
+	case err != nil && (strings.Contains(string(out), "scripted decode panic") || strings.Contains(string(out), vhdr.ValidatePanicMsg)):
 		t.Logf("the client process is killed by a response body on which the codec panics:\n%s", firstLines(string(out), 14))
 		return false
 	default:
@@ -883,6 +901,25 @@ func decodesPanicBody(a answer) bool {
 	return len(fr) > 0 && fr[0].status == int32(p2p_pb.StatusCode_OK) && len(fr[0].body) > 0 && fr[0].body[0] == vhdr.PanicByte
 }
 
+// validatePanics: would the client call Validate on a header of this answer on which it panics
+// (first frame, status OK, decodes, wire flag 2)?
+func validatePanics(a answer) bool {
+	if a.fail != 0 {
+		return false
+	}
+	fr, _ := parse(a)
+	if len(fr) == 0 || fr[0].status != int32(p2p_pb.StatusCode_OK) || len(fr[0].body) == 0 || fr[0].body[0] == vhdr.PanicByte {
+		return false
+	}
+	h := new(vhdr.Header)
+	return h.UnmarshalBinary(fr[0].body) == nil && h.VPanic
+}
+
+func valPanicAnswer() answer {
+	vp := &vhdr.Header{Chain: "chainA", H: 7, T: 1000, Prev: bytes.Repeat([]byte{7}, 32), Nonce: 1, VPanic: true}
+	return answer{kind: "valpanic", bytes: frame(int32(p2p_pb.StatusCode_OK), enc(vp))}
+}
+
 func TestC13(t *testing.T) {
 	rng := emit.NewRand(emit.Seed())
 	wr := emit.NewWriter("Model.Request Oracle.C13", "case13", "chk13")
@@ -890,7 +927,7 @@ func TestC13(t *testing.T) {
 		"each peer's answer drawn from a byte-level grammar (valid / other valid header / other height / wrong chain / case-variant chain / " +
 		"Validate-failing / valid then reset / valid then garbage / two frames / NOT_FOUND with and without body / unknown status codes / " +
 		"empty stream / reset / truncated varint / truncated frame / length prefix only / zero-length frame / empty body / oversized length / " +
-		"1 MiB boundary frames / protobuf garbage / garbage body / body on which the codec panics (alone, under NOT_FOUND, before and after a valid frame) / random bytes / silent until the client's stream deadline (request timeout) expires with a timeout-class read error / no protocol handler / unknown peer); " +
+		"1 MiB boundary frames / protobuf garbage / garbage body / body on which the codec panics (alone, under NOT_FOUND, before and after a valid frame) / body that decodes to a header on which Validate() panics (the same four positions) / random bytes / silent until the client's stream deadline (request timeout) expires with a timeout-class read error / no protocol handler / unknown peer); " +
 		"arrival order forced by gates (all orders for <= 3 peers); caller deadline, cancel and Exchange.Stop inserted at every position; " +
 		"distinct by (target, chain config, multiset of answer kinds in arrival order, cut); non-trivial when some peer answers validly"
 	u := newUniverse()
@@ -911,10 +948,28 @@ func TestC13(t *testing.T) {
 			"obs": "OPanic", "tag": "probe", "note": "observed in a child process: the whole client process died"}, "probe/panicbody", false)
 		wr.Count("outcome", "process killed by codec panic")
 	}
+	// the same for a body that decodes to a header on which Validate() panics
+	valPanicSafe := probePanicChild(t, "val")
+	wr.Extra["client_survives_validate_panic"] = valPanicSafe
+	if !valPanicSafe {
+		sc := &scenario{get: true, hash: w.T.Hash(), want: "chainA", answers: []answer{valPanicAnswer()}, events: []event{{evArrive, 0}}}
+		o := outcome{panicked: true}
+		wr.Add(u.caseTerm(sc, o, nil), map[string]any{"target": "get_T", "want": "chainA", "events": []string{"valpanic"},
+			"obs": "OPanic", "tag": "probe", "note": "observed in a child process: the whole client process died (Validate panic)"}, "probe/valpanic", false)
+		wr.Count("outcome", "process killed by validate panic")
+	}
 	one := func(tg target, want string, answers []answer, order []int, cutKind evKind, cut int, tag string) {
 		if !panicSafe {
 			for _, a := range answers {
 				if decodesPanicBody(a) {
+					wr.Count("skipped", "would kill the driver: "+a.kind)
+					return
+				}
+			}
+		}
+		if !valPanicSafe {
+			for _, a := range answers {
+				if validatePanics(a) {
 					wr.Count("skipped", "would kill the driver: "+a.kind)
 					return
 				}
@@ -1045,7 +1100,7 @@ func TestC13(t *testing.T) {
 	// 3 peers, thorough: every ordered triple of representative answer kinds
 	// (the index order is the arrival order, so every arrival order is covered)
 	if thorough {
-		rep := []string{"T", "U", "W", "C", "X", "notfound", "status3", "empty", "truncframe", "panicbody", "hang", "nohandler"}
+		rep := []string{"T", "U", "W", "C", "X", "notfound", "status3", "empty", "truncframe", "panicbody", "valpanic", "hang", "nohandler"}
 		for _, tg := range targets[:2] {
 			for _, k1 := range rep {
 				for _, k2 := range rep {
@@ -1121,7 +1176,7 @@ func (w *world) pick(rng *emit.Rand) string {
 	case 0, 1:
 		return "T"
 	case 2:
-		return []string{"U", "V", "C", "W", "X", "E", "panicbody"}[rng.Intn(7)]
+		return []string{"U", "V", "C", "W", "X", "E", "panicbody", "valpanic"}[rng.Intn(8)]
 	default:
 		return w.kinds[rng.Intn(len(w.kinds))]
 	}
@@ -1132,9 +1187,12 @@ func (w *world) pick(rng *emit.Rand) string {
 // Before /repo commit c59f8ee Exchange.request had no recover and the child
 // died; the same scenario is now a routine answer kind of TestC13 ("panicbody").
 func TestC13CodecPanicGap(t *testing.T) {
-	if os.Getenv("VERIF_C13_PANIC_CHILD") == "1" {
+	if which := os.Getenv("VERIF_C13_PANIC_CHILD"); which != "" {
 		w := newWorld()
 		a := answer{kind: "panicbody", bytes: frame(int32(p2p_pb.StatusCode_OK), []byte{vhdr.PanicByte, 1, 2, 3})}
+		if which == "val" {
+			a = valPanicAnswer()
+		}
 		sc := &scenario{get: true, hash: w.T.Hash(), want: "chainA", answers: []answer{a}, events: []event{{evArrive, 0}}}
 		o, _ := run(t, sc)
 		fmt.Printf("C13-CHILD-SURVIVED err=%v panicked=%v\n", o.err, o.panicked)
